@@ -47,7 +47,7 @@ CORE = ["absent", None, True, False, 0, 1, 200, 400, 401, 403, 404, 408, 409, 42
         503, 599, 600, -500, 2 ** 64, 10 ** 400, 429.0, math.nan, "429", "", b"429", (429,), [500],
         {}, "OBJ"]
 CORE_SMALL = ["absent", None, True, 0, 200, 401, 404, 409, 429, 503, 600, 10 ** 400, 429.0,
-              math.nan, "429", "", b"429", [500], "OBJ"]
+              math.nan, "429", "", b"429", [500], {"a": 1}, {429}, bytearray(b"x"), "OBJ"]
 
 MAP = {401: "AUTH", 403: "PERMISSION", 400: "PERMANENT", 404: "PERMANENT", 422: "PERMANENT",
        409: "CONCURRENCY", 408: "TRANSIENT", 429: "RATE_LIMIT"}
@@ -281,12 +281,22 @@ SQL_VALUES = ["absent", None, "", "40001", "40P01", "HYT00", "HYT01", "08S01", "
               10 ** 5000, math.nan, b"40001", ["40001"], "OBJ", True, 0]
 SQL_ARGS = [(), ("[40001] x",), ("40001",), ("x 40001 y",), (40001,), (None,), ("A" * 10000,),
             ("[HYT00] [08S01]",), ("08S01", "[42000]"), ("no code",), ("[4000]",),
-            ("ERROR 28000: denied",)]
+            ("ERROR 28000: denied",), (b"[28000] Connexion refus\xe9e",), (b"\xff\xfe",),
+            (bytearray(b"[40001] x"),), (b"[40001] ok",), ("\ud800",)]
 
 
 def cases(clf, tier):
     """Yield attribute dicts for one classifier."""
     ints, core = value_sets(tier)
+    if clf == "optional":
+        # the library is absent: must equal default_classifier also where http-style and default
+        # tables disagree (status_code, args, 422, markers with a status)
+        for v in [401, 404, 422, 429, 503, 509, 200, True, "429"]:
+            yield {"status_code": v}
+            yield {"args": (v,)}
+            yield {"status": 0, "code": v}
+        for sh in ARG_SHAPES:
+            yield {"args": sh}
     if clf in ("default", "strict", "optional"):
         for v in ints + [2 ** 64, 10 ** 400, 10 ** 5000]:
             yield {"status": v}
